@@ -16,7 +16,7 @@ from ..corpus import b64, unb64
 
 PROP = "C16"
 LEVEL = "exploration"
-COUNTS = {"quick": 330, "thorough": 9000}
+COUNTS = {"quick": 600, "thorough": 12000}
 WALL = {"quick": 900, "thorough": 6000}
 RULE = (
     "scenario = one pool document (edge documents first: CRLF, lone CR, no final newline, BOM, 2/3/4-byte UTF-8, long lines) x a rule "
@@ -32,7 +32,7 @@ ASSUMPTIONS = [
 ]
 PROBES = ["cmp:diagnostics-under-fault", "cmp:file-vs-stdin", "cmp:file-vs-scan_string", "cmp:file-vs-scan_path", "cmp:inplace-vs-fix_string", "cmp:diagnostics", "locale_C", "non_ascii_doc", "crlf_doc", "stdin_split_multibyte", "stdin_chunk_1"]
 
-EDGE = ["edge_crlf", "edge_crlf_noeol", "edge_lone_cr", "edge_mixed_eol", "edge_bom", "edge_utf8_2", "edge_utf8_3", "edge_utf8_4", "edge_utf8_noeol", "edge_nbsp", "edge_formfeed", "edge_seps_tail", "edge_u2028", "edge_fs_gs_rs", "edge_one_line", "edge_one_line_noeol", "ws_no_eol", "ws_trailing_eof", "ws_only_newlines", "ws_tabs", "ws_blank_end", "code_dollar", "lrd_quote_unfinished", "lrd_list_unfinished", "lrd_quote_nested", "lrd_partial_eof", "lrd_partial_eof2", "bq_list", "edge_long_line", "edge_big_utf8_3", "edge_big_utf8_2", "edge_big_utf8_4", "ul_mixed", "ws_long", "vp_and_builtin", "pr_good", "pr_bad", "fm_valid"]
+EDGE = ["edge_crlf", "edge_crlf_noeol", "edge_lone_cr", "edge_mixed_eol", "edge_bom", "edge_utf8_2", "edge_utf8_3", "edge_utf8_4", "edge_utf8_noeol", "edge_nbsp", "edge_formfeed", "edge_seps_tail", "edge_u2028", "edge_fs_gs_rs", "edge_one_line", "edge_one_line_noeol", "ws_no_eol", "ws_trailing_eof", "ws_only_newlines", "ws_tabs", "ws_blank_end", "code_dollar", "code_dollar", "in_bare_url", "lrd_quote_unfinished", "lrd_list_unfinished", "lrd_quote_nested", "lrd_partial_eof", "lrd_partial_eof2", "bq_list", "edge_long_line", "edge_big_utf8_3", "edge_big_utf8_2", "edge_big_utf8_4", "ul_mixed", "ws_long", "vp_and_builtin", "pr_good", "pr_bad", "fm_valid"]
 
 SELECTIONS = [
     ([], []),
